@@ -13,6 +13,7 @@ Model + theorems: lean/HalmosVerif/Model/Heap.lean, Gen/CopyTable.lean (tools/ex
 from __future__ import annotations
 
 import contextlib
+import io
 import itertools
 import json
 import random
@@ -30,7 +31,8 @@ RULE = (
     "resetting halmos' singletons), plus invariant scenarios from the C15 templates in every order of their invariants; per-test "
     "normalised results (verdict, path counts, model variable names with the uid stripped, values where the guard pins them, "
     "warnings) must be equal; (1b) three tests of identical shape `require(v<10); assert(v*v != c)` (c a non-square: valid, c a "
-    "square: violable) under --cache-solver (--solver-threads 1 and default) in every order, twice, against each test alone; (2) the same contracts with halmos.utils.uid (and every module-level alias) replaced by another "
+    "square: violable) under --cache-solver, plus the same two-test situation at the solver layer with the AST-id reuse made explicit "
+    "(real FunctionContext/SolvingContext/solve_end_to_end of one ContractContext), (--solver-threads 1 and default) in every order, twice, against each test alone; (2) the same contracts with halmos.utils.uid (and every module-level alias) replaced by another "
     "injective stream and by a constant; (3) ~300 branching programs from vlib/proggen.py run by the real SEVM with every "
     "worklist state deep-fingerprinted at push and at pop. A case is distinct by (contract seed, configuration) / program."
 )
@@ -212,7 +214,32 @@ def sq_test(name, var, bad, lim=10):
     return Fn(f"check_{name}(uint256 {var})", body)
 
 
-def check_cache_orders(ctx, seed, threads):
+@contextlib.contextmanager
+def gc_between_tests():
+    """halmos runs with the cyclic GC enabled (unless --disable-gc); vlib.artifacts pauses it during a run because a collection
+    on a solver-callback thread is unsafe. Here a collection is made on the main thread before every test, so that what an
+    earlier test left behind is really dead (and its z3 AST ids are free for reuse) when the next test starts."""
+    import gc
+
+    from vlib.impl import use_repo
+
+    use_repo()
+    import halmos.__main__ as hm
+
+    orig = hm.run_test
+
+    def run_test(test_ctx):
+        gc.collect()
+        return orig(test_ctx)
+
+    hm.run_test = run_test
+    try:
+        yield
+    finally:
+        hm.run_test = orig
+
+
+def check_cache_orders(ctx, seed, threads, reps=2):
     """tests of identical shape, some valid (their assertion query is unsat and leaves an unsat core under --cache-solver), some
     violable; every order, and each test alone: the verdict of a test must be its alone-verdict"""
     from vlib.artifacts import TestContract
@@ -239,8 +266,8 @@ def check_cache_orders(ctx, seed, threads):
             ctx.violation(f"cache-solver-alone-verdict-wrong|expected:{expect[r.name]}|got:{r.exitcode}",
                           f"CacheT.{r.name} alone with {cfg}: exit code {r.exitcode}, expected {expect[r.name]}", replay)
     for order in itertools.permutations(range(3)):
-        for rep in range(2):
-            with (no_singleton_reset() if rep else contextlib.nullcontext()):
+        for rep in range(reps):
+            with (no_singleton_reset() if rep else contextlib.nullcontext()), gc_between_tests():
                 run = run_cfg(TestContract("CacheT", [tests[i] for i in order]), [], **cfg)
             ctx.case(f"cache-order|{seed}|{threads}|{order}|{rep}")
             ctx.count("cache-orders:configurations")
@@ -254,6 +281,98 @@ def check_cache_orders(ctx, seed, threads):
                         f"cache-solver:verdict-depends-on-earlier-tests|{alone[r.name]}->{r.exitcode}",
                         f"CacheT.{r.name} with {cfg}: exit code {alone[r.name]} alone but {r.exitcode} after {before} "
                         f"(order {[tests[i].sig for i in order]}, repetition {rep})", dict(replay, order=list(order), rep=rep))
+
+
+def check_core_isolation(ctx):
+    """What two consecutive tests of one contract do to the solver layer, with the AST-id reuse made explicit: test A's assertion
+    query is unsat and leaves an unsat core (names = z3 AST ids of A's constraints); A's constraints die; test B's constraints are
+    created afterwards and (z3 hands out the ids of dead ASTs again — re-created until that is observed, else the names are
+    relabelled to A's) carry the same names. B's satisfiable query goes through the real FunctionContext / SolvingContext /
+    solve_end_to_end / CounterexampleHandler of the *same* ContractContext: its verdict must be the verdict B gets alone."""
+    from collections import Counter
+    from functools import partial
+
+    from vlib.artifacts import YICES_COMMAND, Z3_COMMAND
+    from vlib.impl import use_repo
+
+    use_repo()
+    import z3
+    from halmos.__main__ import CounterexampleHandler
+    from halmos.calldata import FunctionInfo
+    from halmos.config import ConfigSource, default_config
+    from halmos.sevm import Path
+    from halmos.solve import ContractContext, FunctionContext, PathContext, SMTQuery, solve_end_to_end
+    from halmos.utils import create_solver
+
+    def args_for(cmd, threads):
+        kw = dict(cache_solver=True, solver_command=cmd, no_status=True)
+        if threads:
+            kw["solver_threads"] = threads
+        return default_config().with_overrides(ConfigSource.command_line, **kw)
+
+    def contract_ctx(args):
+        return ContractContext(args=args, name="T", funsigs=["check_a(uint256)", "check_b(uint256)"], creation_hexcode="",
+                               deployed_hexcode="", abi={}, method_identifiers={}, contract_json={}, libs={}, build_out_map={})
+
+    def panic_path(var, lim, bad):
+        v = z3.BitVec(var, 256)
+        path = Path(create_solver())
+        path.append(z3.ULT(v, z3.BitVecVal(lim, 256)))
+        path.append(v * v == z3.BitVecVal(bad, 256))
+        return path
+
+    def solve(args, cctx, name, query):
+        fctx = FunctionContext(args=args, info=FunctionInfo("T", name, f"{name}(uint256)", "00000000"), solver=None, contract_ctx=cctx)
+        handler = CounterexampleHandler(ctx=fctx, is_invariant=False, is_probe=False, flamegraph_enabled=False,
+                                        potential_flamegraphs={}, submitted_futures=[])
+        fctx.call_sequences[0] = ""
+        pctx = PathContext(args=args, path_id=0, query=query, solving_ctx=fctx.solving_ctx)
+        fut = fctx.thread_pool.submit(solve_end_to_end, pctx)
+        buf = io.StringIO()
+        with contextlib.redirect_stdout(buf):
+            fut.add_done_callback(partial(handler._solve_end_to_end_callback, ex=None, path_ctx=pctx, description=None))
+            fctx.thread_pool.shutdown(wait=True)
+        cnt = Counter(str(o.result) for o in fctx.solver_outputs)
+        verdict = "FAIL" if cnt["sat"] else ("ERROR" if cnt["err"] or cnt["unknown"] else "PASS")
+        core = {n for o in fctx.solver_outputs for n in (o.unsat_core or [])}
+        return verdict, core
+
+    cases = [(7, 9, 10), (2, 4, 10), (3, 16, 7), (5, 25, 100)]
+    solvers = [("yices", YICES_COMMAND), ("z3", Z3_COMMAND)]
+    for k, (bad_a, bad_b, lim) in enumerate(cases):
+        sname, cmd = solvers[k % 2]
+        threads = 1 if k % 2 == 0 else None
+        args = args_for(cmd, threads)
+        qb = panic_path("p_y_uint256_bbbbbbb_00", lim, bad_b).to_smt2(args)
+        alone, _ = solve(args, contract_ctx(args), "check_b", qb)
+        cctx = contract_ctx(args)
+        va, core = solve(args, cctx, "check_a", panic_path("p_x_uint256_aaaaaaa_00", lim, bad_a).to_smt2(args))
+        how = "recycled"
+        keep = []
+        for _ in range(64):
+            path = panic_path("p_y_uint256_bbbbbbb_00", lim, bad_b)
+            query = path.to_smt2(args)
+            if core and core <= set(query.assertions):
+                break
+            keep.append(path)
+        else:
+            how = "relabelled"
+            smtlib, ids = query.smtlib, list(query.assertions)
+            for i, new in enumerate(sorted(core)):
+                smtlib = smtlib.replace(f"|{ids[i]}|", f"|{new}|")
+                ids[i] = new
+            query = SMTQuery(smtlib, ids)
+        after, _ = solve(args, cctx, "check_b", query)
+        ctx.case(f"core-isolation|{bad_a}|{bad_b}|{lim}|{sname}|{threads}")
+        ctx.count(f"core-isolation:{how}:a={va}:b-alone={alone}:b-after-a={after}")
+        if not core:
+            ctx.count("core-isolation:no-core-from-test-a")
+        if after != alone:
+            ctx.violation(
+                f"cache-solver:unsat-core-of-earlier-test-answers-later-test|{alone}->{after}",
+                f"--cache-solver ({sname}, threads {threads}): check_b = require(y<{lim}); assert(y*y != {bad_b}) is {alone} alone but "
+                f"{after} after check_a = require(x<{lim}); assert(x*x != {bad_a}) (unsat, core {sorted(core)}) in the same contract "
+                f"context, when check_b's constraints carry the AST ids freed by check_a ({how})", {"kind": "core-isolation"})
 
 
 # ------------------------------------------------------------------------------------------------ (2) uid streams
@@ -565,8 +684,9 @@ def correspond(ctx):
         inv += [(ctx.rng.randrange(1 << 40), t, 2) for t in range(len(c15.TEMPLATES))]
     for seed, t, d in inv[: ctx.scale(2, 40)]:
         check_invariant_orders(ctx, seed, t, d)
-    for k in range(ctx.scale(2, 12)):
-        check_cache_orders(ctx, ctx.rng.randrange(1 << 40), 1 if k % 2 == 0 else None)
+    check_core_isolation(ctx)
+    for k in range(ctx.scale(1, 12)):
+        check_cache_orders(ctx, ctx.rng.randrange(1 << 40), 1 if (k + ctx.seed) % 2 == 0 else None, reps=ctx.scale(1, 2))
     check_depth_warning(ctx)
     check_siblings(ctx, ctx.scale(300, 3000))
 
@@ -578,6 +698,8 @@ def replay(ctx, data) -> bool:
         check_uid(ctx, gen, base, d["seed"])
     elif d.get("kind") == "inv-orders":
         check_invariant_orders(ctx, d["seed"], d["tmpl"], d["depth"])
+    elif d.get("kind") == "core-isolation":
+        check_core_isolation(ctx)
     elif d.get("kind") == "cache-orders":
         check_cache_orders(ctx, d["seed"], d.get("threads"))
     elif d.get("kind") == "depth-warning":
